@@ -66,9 +66,11 @@ fn main() {
         .unwrap_or(16);
     let ctx = Ctx { prop: prop.clone(), tier, seed, replay, scale, threads, verbose };
     panichook::install();
+    common::start_watchdog();
     let code = match prop.as_str() {
         "C02" | "C03" | "C04" | "C05" | "C06" | "C14" | "C15" => props::pool::run(&ctx),
         "C16" => props::c16::run(&ctx),
+        "C08" => props::c08::run(&ctx),
         "C20" => props::c20::run(&ctx),
         "C10" | "C11" => props::eyes::run(&ctx),
         other => {
